@@ -113,7 +113,24 @@ impl<'a, 'b> WGen<'a, 'b> {
                     steps: vec![(RelPat { var: Some("r".into()), types: vec![self.ty()], dir, props: vec![("rid".into(), lit(V::Int(rid))), ("w".into(), lit(V::Int(self.t.choose(4) as i64)))], varlen: None }, NodePat { var: Some("b".into()), labels: vec![], props: vec![("uid".into(), lit(V::Int(u2)))] })],
                     shortest: Shortest::No,
                 };
-                (single(vec![Clause::Create { patterns: vec![pat] }, ret_items(vec![(E::Prop("r".into(), "rid".into()), "c0"), (E::Func("type".into(), vec![E::Var("r".into())]), "c1")])]), "create_path")
+                let mut patterns = vec![pat];
+                let mut tag = "create_path";
+                if self.t.chance(1, 3) {
+                    // a second comma-separated path that starts at a node the first one created
+                    tag = "create_shared_variable_paths";
+                    let rid2 = self.next_rid;
+                    self.next_rid += 1;
+                    let uid3 = self.next_uid;
+                    self.next_uid += 1;
+                    let from = if self.t.chance(1, 2) { "a" } else { "b" };
+                    patterns.push(PathPat {
+                        name: None,
+                        start: NodePat { var: Some(from.into()), labels: vec![], props: vec![] },
+                        steps: vec![(RelPat { var: None, types: vec![self.ty()], dir: Dir::Out, props: vec![("rid".into(), lit(V::Int(rid2)))], varlen: None }, NodePat { var: Some("c".into()), labels: vec![], props: vec![("uid".into(), lit(V::Int(uid3)))] })],
+                        shortest: Shortest::No,
+                    });
+                }
+                (single(vec![Clause::Create { patterns }, ret_items(vec![(E::Prop("r".into(), "rid".into()), "c0"), (E::Func("type".into(), vec![E::Var("r".into())]), "c1")])]), tag)
             }
             2 => {
                 // MATCH two nodes, CREATE a relationship between them
@@ -266,7 +283,30 @@ impl<'a, 'b> WGen<'a, 'b> {
                     steps: vec![(RelPat { var: None, types: vec![self.ty()], dir: Dir::Out, props: vec![("rid".into(), lit(V::Int(rid)))], varlen: None }, NodePat { var: Some("m".into()), labels: vec![self.label()], props: vec![("uid".into(), lit(V::Int(uid)))] })],
                     shortest: Shortest::No,
                 };
-                (single(vec![Clause::Match { optional: false, patterns: vec![node_by_uid("a", x)], where_: None }, Clause::Create { patterns: vec![pat] }, ret_items(vec![(E::Prop("m".into(), "uid".into()), "c0")])]), "match_create_node")
+                let mut patterns = vec![pat];
+                let mut tag = "match_create_node";
+                // further comma-separated paths that continue from a variable the same CREATE introduced
+                if self.t.chance(1, 2) {
+                    tag = "match_create_shared_variable_paths";
+                    let rid2 = self.next_rid;
+                    self.next_rid += 1;
+                    let dir = if self.t.chance(1, 3) { Dir::In } else { Dir::Out };
+                    let end = if self.t.chance(1, 3) {
+                        // back to the matched node
+                        NodePat { var: Some("a".into()), labels: vec![], props: vec![] }
+                    } else {
+                        let uid2 = self.next_uid;
+                        self.next_uid += 1;
+                        NodePat { var: Some("d".into()), labels: if self.t.chance(1, 2) { vec![self.label()] } else { vec![] }, props: vec![("uid".into(), lit(V::Int(uid2)))] }
+                    };
+                    patterns.push(PathPat {
+                        name: None,
+                        start: NodePat { var: Some("m".into()), labels: vec![], props: vec![] },
+                        steps: vec![(RelPat { var: None, types: vec![self.ty()], dir, props: vec![("rid".into(), lit(V::Int(rid2)))], varlen: None }, end)],
+                        shortest: Shortest::No,
+                    });
+                }
+                (single(vec![Clause::Match { optional: false, patterns: vec![node_by_uid("a", x)], where_: None }, Clause::Create { patterns }, ret_items(vec![(E::Prop("m".into(), "uid".into()), "c0")])]), tag)
             }
         }
     }
@@ -421,7 +461,7 @@ pub fn run(args: &Args) {
     let mut ev = Evidence::new(
         args,
         "exploration",
-        "small generated graph x sequence of 1-5 write statements from 15 templates (CREATE node/path, MATCH..CREATE, MERGE node/relationship with ON CREATE/ON MATCH, UNWIND-driven MERGE and CREATE, SET property/+=/=/label, REMOVE property/label, DELETE, DETACH DELETE, relationship writes, write after WITH); after every statement the uid-keyed typed dump of the store must equal a reference mutation model (openCypher write semantics on a plain graph, reads through the brute-force evaluator) and returned rows must match; a plain DELETE of a connected node must be refused. Non-trivial = a statement changed the model graph or was required to be refused; distinct = distinct (graph, statement texts).",
+        "small generated graph x sequence of 1-5 write statements from 15 templates (CREATE node/path incl. comma-separated paths sharing a created variable, MATCH..CREATE, MERGE node/relationship with ON CREATE/ON MATCH, UNWIND-driven MERGE and CREATE, SET property/+=/=/label, REMOVE property/label, DELETE, DETACH DELETE, relationship writes, write after WITH); after every statement the uid-keyed typed dump of the store must equal a reference mutation model (openCypher write semantics on a plain graph, reads through the brute-force evaluator) and returned rows must match; a plain DELETE of a connected node must be refused. Non-trivial = a statement changed the model graph or was required to be refused; distinct = distinct (graph, statement texts).",
     );
     ev.assume("statements whose openCypher meaning is order-dependent or disputed are not generated (SET item reading what another item of the same clause wrote; using a variable after deleting it); a statement refused by the engine although openCypher defines it is counted as a refusal, and the sequence continues from the unchanged model");
     let kf = Known::load(args);
